@@ -30,6 +30,18 @@ def expected(d, label, origin, vlen, cats):
     for f in files:
         if f.sectors() > 0:
             used = max(used, f.start + f.sectors())
+    # oracle-spec tie (Beeb.Spec.Layout): unallocated runs, owned sectors and `used` of this layout
+    ext = sorted(((f.start, f.sectors()) for f in files if f.sectors() > 0))
+    if all(ext[j][0] + ext[j][1] <= ext[j + 1][0] for j in range(len(ext) - 1)) and (not ext or (ext[0][0] >= catsec and ext[-1][0] + ext[-1][1] <= total)) and catsec <= total:
+        runs, pos = [], catsec
+        for (a, n) in ext:
+            runs.append(a - pos)
+            pos = a + n
+        runs.append(total - pos)
+        vlib.spec_tie('layout %d %d %s' % (catsec, total, ','.join('%d:%d' % e for e in ext) or '-'),
+                      'runs=%s owned=%d used=%d' % (','.join(map(str, runs)), sum(n for _, n in ext), used))
+        free_runs = [(b - a) for (a, b) in runs_of_free(owner, total, 0)]
+        assert free_runs == [x for x in runs if x > 0], (free_runs, runs)
     return catsec, total, owner, used, len(files)
 
 
